@@ -2,6 +2,9 @@ import MobiusModel.Authz
 import MobiusModel.Generated.Handlers
 import MobiusModel.Generated.AccessGuards
 import MobiusModel.Generated.Consts
+import MobiusModel.TranslatedTies
+import MobiusModel.KickGrace
+import MobiusModel.Generated.Kick
 /-!
   C06 — No privilege amplification; protected users cannot be kicked.
 
@@ -175,5 +178,102 @@ theorem creation_paths_shape : Generated.ampFlow = [
 theorem disconnect_shape : Generated.disconnectFlow =
     ["guard-requester:AccessDisconUser", "assign:clientID", "assign:clientConn",
      "guard:clientConn.Authorize(AccessCannotBeDiscon)", "ban-block", "go:Disconnect", "return"] := by decide
+
+/-! Ties by translation (docs/Translator.md): the `isSet` / `set` every amplification theorem above is
+    stated with ARE `(*AccessBitmap).IsSet` / `Set` of /repo's current hotline/access.go, translated to
+    Lean on every check (`Generated/Translated.lean`) — for every bitmap and every `0 ≤ i < 64`, the
+    range the 64-iteration subset loop of the two account handlers runs over. -/
+
+theorem translated_IsSet_is_the_model (b : AccessBitmap) (i : Nat) (hi : i < 64) :
+    Generated.Translated.AccessBitmap_IsSet b.bytes (i : Int) = .ok (b.isSet i) :=
+  TranslatedTies.IsSet_translated b i hi
+
+theorem translated_Set_is_the_model (b : AccessBitmap) (i : Nat) (hi : i < 64) :
+    Generated.Translated.AccessBitmap_Set b.bytes (i : Int) = .ok (b.set i).bytes :=
+  TranslatedTies.Set_translated b i hi
+
+-- non-vacuity
+example : Generated.Translated.AccessBitmap_IsSet (AccessBitmap.ofBits [14, 22]).bytes 22 = .ok true := by decide
+example : Generated.Translated.AccessBitmap_IsSet (AccessBitmap.ofBits [14, 22]).bytes 23 = .ok false := by decide
+
+/-! ## Wave d — the delayed `Disconnect()` of an accepted disconnect request (`KickGrace`)
+
+    The body of `ClientConn.Disconnect()` deletes **by user id** (`ClientMgr.Delete(cc.ID)`) and never compares the
+    table's entry with `cc`; since fix d658b12 it runs once per connection object.  Clause: *a protected user is never
+    disconnected by another user's disconnect request* — here for the timer, whatever happens during the grace
+    second (the target hangs up by itself, others log in and inherit ids, also across the 16-bit wrap). -/
+
+open Mobius.KickGrace in
+/-- For EVERY history of logins, hang-ups, disconnect requests and timer firings from the empty server (no
+    hypothesis on the id counter): a `Disconnect()` call removes from the client table at most the connection object
+    it was called on, and a user whose account is marked cannot-be-disconnected is removed only by its own connection
+    loop — never by the timer of a disconnect request. -/
+theorem kick_timer_spares_protected (es : List Ev) (j : Nat) (h : Handle)
+    (hj : (run World.init es).handles[j]? = some h)
+    (c : Client) (hc : c ∈ (run World.init es).reg.clients)
+    (hgone : c ∉ (step (run World.init es) (.disconnect j)).reg.clients) :
+    c.conn = h.conn ∧ (accessBit c.access 23 = true → h.kind = .loop) := by
+  have hg := run_good es _ Good.init
+  exact ⟨disconnect_removes_at_most_target _ hg j h hj c hc hgone,
+    fun hp => (protected_removed_only_by_own_loop _ hg j h hj c hc hp hgone).1⟩
+
+/-- Regenerated: the body of `ClientConn.Disconnect` (with the by-id `ClientMgr.Delete`) is the single statement
+    `cc.<sync.Once field>.Do(func() { … })` — what `KickGrace.disconnectObj` models.  (Without the once-guard the
+    model is `stepOld`, for which the clause fails: `kick_timer_after_wrap_removes_protected`.) -/
+theorem disconnect_is_once_guarded : Generated.disconnectShape = "once-guarded" := by decide
+
+/-- What the body of `Disconnect()` guarantees on its own: it removes exactly the holders of the id stored in the
+    object it is called on (whoever they are). -/
+theorem disconnect_body_removes_by_id (w : KickGrace.World) (h : KickGrace.Handle) (c : Client) :
+    c ∈ (KickGrace.disconnectObjById w h).reg.clients ↔ c ∈ w.reg.clients ∧ c.id ≠ h.id :=
+  KickGrace.disconnectObjById_removes w h c
+
+/-- A disconnect request against a protected user, or naming an id nobody holds, schedules nothing and leaves
+    the table alone. -/
+theorem kick_protected_or_unheld_inert (w : KickGrace.World) (t : Nat)
+    (h : ∀ c, w.reg.get t = some c → accessBit c.access 23 = true) : (KickGrace.kick w true t).1 = w := by
+  unfold KickGrace.kick
+  simp only [Bool.not_true, Bool.false_eq_true, if_false]
+  split
+  · rfl
+  · rename_i c hg; rw [if_pos (h c hg)]
+
+open Mobius.KickGrace in
+/-- NEGATIVE WITNESS about the code BEFORE fix d658b12 (`stepOld`: the body ran on every call): after the wrap, user 5
+    is kicked (accepted), hangs up by itself inside the grace second, a PROTECTED user logs in and is handed id 5, the
+    timer fires — and the protected user is gone from the table.  (Replayed on the real code by the harness family
+    `kick-grace` when d658b12 is reverted: `protected-disconnected-after-id-wrap`.) -/
+theorem kick_timer_after_wrap_removes_protected :
+    let w := runOld wrapWorld [.kick true 5, .disconnect 0, .login true]
+    (∃ c ∈ w.reg.clients, accessBit c.access 23 = true ∧ c.id = 5 ∧ c.conn = 1) ∧
+    w.handles[0]? = some ⟨.timer, 5, 0⟩ ∧
+    (stepOld w (.disconnect 0)).reg.clients = [] := by
+  decide +kernel
+
+open Mobius.KickGrace in
+/-- … and the same history on the code as it is now: the stale timer is a no-op, the protected newcomer stays. -/
+theorem kick_timer_after_wrap_now_spares_protected :
+    let w := run wrapWorld [.kick true 5, .disconnect 0, .login true]
+    w.handles[0]? = some ⟨.timer, 5, 0⟩ ∧
+    ((step w (.disconnect 0)).reg.clients.map fun c => (c.id, c.conn, accessBit c.access 23)) = [(5, 1, true)] := by
+  decide +kernel
+
+-- non-vacuity: a history in which a timer does remove somebody (its target) from a populated table, and one where
+-- it fires after its target left and a newcomer came
+example :
+    let es : List KickGrace.Ev := [.login false, .login false, .login true, .kick true 2]
+    (KickGrace.run KickGrace.World.init es).handles[3]? = some ⟨.timer, 2, 1⟩ ∧
+    ((KickGrace.step (KickGrace.run KickGrace.World.init es) (.disconnect 3)).reg.clients.map (·.id)) = [1, 3] := by
+  decide +kernel
+
+example :
+    let es : List KickGrace.Ev := [.login false, .login false, .kick true 2, .disconnect 1, .login true]
+    ((KickGrace.run KickGrace.World.init es).reg.clients.map (·.id)) = [1, 3] ∧
+    (KickGrace.run KickGrace.World.init es).handles[1]? = some ⟨.timer, 2, 1⟩ ∧
+    ((KickGrace.step (KickGrace.run KickGrace.World.init es) (.disconnect 1)).reg.clients.map (·.id)) = [1, 3] := by
+  decide +kernel
+
+example : (KickGrace.kick (KickGrace.run KickGrace.World.init [.login true]) true 1).2 = .protectedT ∧
+    (KickGrace.kick (KickGrace.run KickGrace.World.init [.login true]) true 7).2 = .panicked := by decide +kernel
 
 end Mobius.C06
